@@ -11,6 +11,13 @@ pub fn vpanic() -> !
     panic!()
 }
 
+/// CL03: a panic that the property counts as a refusal (allowed divergence, no obligation).
+#[verifier::external_body]
+pub fn vrefuse() -> !
+{
+    panic!()
+}
+
 /// `assert!(c, ..)`: the condition is an obligation.
 pub fn vassert(c: bool)
     requires c,
@@ -236,4 +243,38 @@ pub fn slice_get_or_empty<'a, T>(s: &'a [T], a: usize, b: usize) -> (r: &'a [T])
         !(a <= b && b <= s@.len()) ==> r@ == Seq::<T>::empty(),
 {
     s.get(a..b).unwrap_or_default()
+}
+
+/// CL03 (ops mode): `.unwrap()` / `.expect(..)` whose failure is a panic = refusal (allowed divergence):
+/// no precondition, returns only in the Some / Ok case.
+pub trait Refuse<T>: Sized {
+    spec fn refuse_ok(self, r: T) -> bool;
+
+    fn unwrap_refuse(self) -> (r: T)
+        ensures self.refuse_ok(r),
+    ;
+
+    fn expect_refuse(self, msg: &str) -> (r: T)
+        ensures self.refuse_ok(r),
+    ;
+}
+
+impl<T> Refuse<T> for Option<T> {
+    open spec fn refuse_ok(self, r: T) -> bool { self is Some && r == self->0 }
+
+    #[verifier::external_body]
+    fn unwrap_refuse(self) -> (r: T) { self.unwrap() }
+
+    #[verifier::external_body]
+    fn expect_refuse(self, msg: &str) -> (r: T) { self.expect(msg) }
+}
+
+impl<T, E> Refuse<T> for Result<T, E> {
+    open spec fn refuse_ok(self, r: T) -> bool { self is Ok && r == self->Ok_0 }
+
+    #[verifier::external_body]
+    fn unwrap_refuse(self) -> (r: T) { unimplemented!() }
+
+    #[verifier::external_body]
+    fn expect_refuse(self, msg: &str) -> (r: T) { unimplemented!() }
 }
